@@ -63,13 +63,20 @@ def run(chk):
         Z = 0.5 * X + rng.standard_normal((N, 2))
         Xc, Yc, Zc = rng.poisson(3, (N, 1)).astype(float), rng.poisson(3, (N, 1)).astype(float), rng.poisson(2, (N, 2)).astype(float)
         datasets.append((N, X, Y, Z, Xc, Yc, Zc))
+    # degenerate but legal conditioning sets: all zeros, a constant column, a zero column beside an ordinary one
+    N, X, Y, Z, Xc, Yc, Zc = datasets[0]
+    datasets.append((N, X, Y, np.zeros((N, 2)), Xc, Yc, np.zeros((N, 2))))
+    datasets.append((N, X, Y, np.column_stack([np.full(N, 3.0), Z[:, 0]]), Xc, Yc, np.column_stack([np.full(N, 2.0), Zc[:, 0]])))
+    datasets.append((N, X, Y, np.column_stack([np.zeros(N), Z[:, 1]]), Xc, Yc, np.column_stack([np.zeros(N), Zc[:, 1]])))
+    ND = len(datasets)
     for f in FUNCS:
         setattr(M, f, wrap(f))
     try:
         for t in range(n_cases):
             name = NAMES[t % 6] if rng.random() < 0.93 else str(rng.choice(["kernel", "KDE", "", "knn ", "gauss", "k", "density", "geometric", "Poisson"]))
             zp = bool((t // 6) % 2)
-            N, X, Y, Z, Xc, Yc, Zc = datasets[t % 3]
+            N, X, Y, Z, Xc, Yc, Zc = datasets[t % 3] if rng.random() < 0.8 else datasets[3 + int(rng.integers(0, ND - 3))]
+            degenerate = Z.shape[0] and (not np.any(Z[:, 0] - Z[0, 0]))
             if name == "poisson":
                 X, Y, Z = Xc, Yc, Zc
             st = {"k": int(rng.integers(1, N)), "metric": str(rng.choice(["euclidean", "cityblock", "chebyshev"])),
@@ -92,7 +99,20 @@ def run(chk):
                 if err != "ValueError":
                     fail = f"unknown estimator name {name!r} did not raise ValueError (returned {out!r}, raised {err})"
             elif err is not None:
-                fail = f"{err} raised for supported name {name!r}"
+                # the named estimator itself may reject degenerate data; the dispatcher must then fail the same way
+                cname = COND[name]
+                derr = None
+                try:
+                    with np.errstate(all="ignore"):
+                        (orig[cname] if zp or UNCOND[name] is None else orig[UNCOND[name]])(
+                            *((X, Y, Z if zp else None) if zp or UNCOND[name] is None else (X, Y)),
+                            **{s_: st[s_] for s_ in SETTINGS if s_ in sigs[cname if zp or UNCOND[name] is None else UNCOND[name]].parameters})
+                except Exception as e2:
+                    derr = type(e2).__name__
+                if derr != err:
+                    fail = f"{err} raised for supported name {name!r} although the named estimator {'raises ' + derr if derr else 'returns a value'} on the same data"
+                else:
+                    chk.count("both_raise." + err)
             else:
                 cname = COND[name]
                 direct_fn = orig[cname] if zp or UNCOND[name] is None else orig[UNCOND[name]]
@@ -123,10 +143,12 @@ def run(chk):
             rc.append(f"({coq_str(name)}, {coq_bool(zp)}, {coq_str(callee)}, {coq_list([coq_str(s) for s in arrived])}, "
                       f"{coq_bool(err == 'ValueError')})")
             rd.append({"name": name, "Z": "given" if zp else None, "settings": st, "calls": [[c[0], {k: str(v) for k, v in c[1].items()}] for c in calls],
-                       "result": None if out is None else float(out), "raised": err, "dataset": t % 3})
+                       "result": None if out is None else float(out), "raised": err, "Z_first_column_constant": bool(degenerate), "Z": Z.tolist() if zp else None})
             chk.case(key=(name, zp, tuple(sorted((k, str(v)) for k, v in st.items())), t % 3), nontrivial=name in NAMES,
                      sample=rd[-1] if len(chk.samples) < 3 and t in (3, 10, 16) else None)
             chk.count("route." + (name if name in NAMES else "<unknown>") + (".Z" if zp else ".None"))
+            if degenerate and zp:
+                chk.count("degenerate_Z")
     finally:
         for f in FUNCS:
             setattr(M, f, orig[f])
